@@ -168,8 +168,12 @@ def gen_history(schema, ty, rnd, n, emphasis=None):
                     continue
                 kw.append([f["name"], v])
             bad = {"op": "fromdict_bad", "kw": kw, "badkey": dyn.py(badf).rstrip("_"), "badval": BAD_JSON[badf["kind"]]}
+        nested = [f for f in schema["types"][ty] if f["kind"] == "message" and f["card"] in ("implicit", "optional", "oneof")]
+        if nested and r2.random() < .4:
+            # a Python-dict document whose nested part cannot be read (a number where a nested document belongs)
+            bad = {"op": "frompydict_bad", "doc": {dyn.py(r2.choice(nested)): 5}}
         ops.insert(at, bad)
-        ops.insert(at + 1, {"op": r2.choice(["observe", "bytes", "eqself", "todict"])})
+        ops.insert(at + 1, {"op": r2.choice(["observe", "bytes", "eqself", "todict", "copy", "deepcopy", "pickle"])})
     return ops
 
 
@@ -408,6 +412,12 @@ def run_history(schema, C, ty, ops, R=None, reread=False, dictback=False):
                 try:
                     m.from_dict(d)
                     return log               # (taken as it is: not a rejection, and what such an object is worth is nobody's claim)
+                except Exception as ex:
+                    e["res"] = "rejected:" + type(ex).__name__
+            elif k == "frompydict_bad":
+                try:
+                    m.from_pydict(op["doc"])
+                    return log
                 except Exception as ex:
                     e["res"] = "rejected:" + type(ex).__name__
             elif k == "fromdict_cls":
